@@ -99,7 +99,8 @@ PLAN = {
         level="model_checking",
         verus=[],
         kani=True,
-        undecided_clauses=["data sets larger than the parallel chunk size 64 (that chunks(64) + flat_map + collect concatenates in order is std's / rayon's contract: assumed)",
+        undecided_clauses=["the chunk size is a parameter of the slice (instances: 64 with 2 samples, 2 with 3 samples = one full + one short chunk); "
+                           "the code's value 64 with more than 64 samples is not executed; rayon's order-preserving collect is assumed",
                            "predict = last activation of forward: read (two lines), not verified",
                            "more than 3 samples / more than 2 outputs"],
     ),
@@ -122,7 +123,7 @@ PLAN = {
     "C15": dict(
         title="Element-wise tensor arithmetic is exact, rank-generic and shape-checked",
         level="proof",
-        verus=["C15_tensor_ops.rs", "C15_transpose.rs"],
+        verus=["C15_tensor_ops.rs", "C15_transpose.rs", "C15_mean_pick.rs"],
         kani=True,
         undecided_clauses=["iterator zips over more cells than the listed small shapes (the element formula itself is proved for every cell)",
                            "nested-list add / div (recursion over Tensor)"],
@@ -130,10 +131,10 @@ PLAN = {
     "C16": dict(
         title="Skip connections combine source and target inputs as configured",
         level="proof",
-        verus=["C16_connect.rs"],
+        verus=["C16_connect.rs", "C16_skip_forward.rs"],
         kani=True,
-        undecided_clauses=["forward accumulation of the skipped input (all five accumulations, flat <-> spatial) and the gradient clause for additive "
-                           "accumulation: network-level harnesses under construction / out of CBMC's reach",
+        undecided_clauses=["the gradient clause for additive accumulation (reverse walk of Network::backward): not verified",
+                           "the tensor operations themselves are abstract in the skip unit (their cell-wise meaning is C15's, reshape's is C14's)",
                            "the element-count comparison inside connect() (two matches over layer kinds + assert_eq!) is not part of the verified regions"],
     ),
     "C18": dict(
@@ -295,7 +296,10 @@ MANIFEST_TEXT = {
         text="Proof for all maps and all index pairs: on the two regions of Network::connect that touch the connection table (index / duplicate "
              "guard, final insert) Verus shows (a) whenever the call returns, every earlier mapping is still present and unchanged and the new "
              "one is recorded (rejecting is the only alternative), and (b) a valid pair whose source and target differ from every connected "
-             "source and target is never rejected. Failing obligations are replayed by a native enumeration of call pairs on real networks.",
+             "source and target is never rejected; (c) on the skip-connection region of Network::forward: for every network, index and table, the "
+             "input handed to layer i is the configured accumulation (add / subtract / multiply / mean / overwrite) of its ordinary input with "
+             "activated[source] reshaped to its shape, and is untouched when no connection targets i. Failing connect obligations are replayed by a "
+             "native enumeration of call pairs on real networks.",
         note="vstd's specification of std::collections::HashMap; the element-count comparison in the middle of connect() is dropped from the "
              "unit; the forward-pass accumulation clause is not yet covered.",
     ),
